@@ -237,6 +237,13 @@ func runProperty(p *Property, tier string, seed, workers int, only string, norep
 		if in.MaxAlloc > 0 {
 			eng.MaxAlloc = in.MaxAlloc
 		}
+		inCopy := in
+		eng.StopOn = func(v sym.Violation) bool { return matchKnown(known, p.ID, inCopy, v) == nil }
+		budget := 10 * time.Minute
+		if tier == "thorough" {
+			budget = 40 * time.Minute
+		}
+		eng.Deadline = time.Now().Add(budget)
 		sum := eng.Run(h, workers)
 		results = append(results, instResult{in, sum})
 		fmt.Printf("  %-60s paths=%d steps=%d queries=%d unknown=%d viol=%d wall=%.1fs\n", in, sum.Paths, sum.Steps, sum.Queries, sum.QUnknown, len(sum.Violations), sum.Wall.Seconds())
